@@ -420,6 +420,7 @@ func init() {
 				specs = append(specs, s)
 			}
 			specs = append(specs, d.NewSpec("missing", "missing", 0, 1))
+			specs = d.WithRuntimeVariants(specs, int(d.Pick(3, 1)), func(s Spec) bool { return s.Kind == "write" })
 			outs := d.RunWorkers(specs, 16)
 			d.raceVerdict(outs)
 		},
